@@ -75,6 +75,14 @@ Theorem c11_inherit_uncertainty_terminates :
     exists ts' res', inherit_uncertainty all ts = Some (ts', res') /\ same_graph ts ts' /\ keys ts' = keys ts.
 Proof. exact inherit_terminates. Qed.
 
+(* 6b. ... for ANY order in which the passes visit the map (Go's range order is unspecified and may
+       differ from pass to pass): [ords k] is the order of pass k and only has to contain every key. *)
+Theorem c11_inherit_uncertainty_terminates_any_order :
+  forall (ords : nat -> list name) all ts, wf_tags ts ->
+    (forall k n, In n (keys ts) -> In n (ords k)) ->
+    exists ts' res', inherit_loop_ord (List.length ts) ords all ts [] = Some (ts', res') /\ same_graph ts ts' /\ keys ts' = keys ts.
+Proof. exact inherit_terminates_any_order. Qed.
+
 (* 7. The reference walk added by the patch never runs out of its fuel (the fuel is a proof
       device, the Go loop has none). *)
 Theorem c11_reference_walk_fuel_suffices :
